@@ -36,7 +36,7 @@ KWNAME = dict(in_math='in_math_mode', mdelim='math_mode_delimiter', inline='late
               en_groups='enable_groups', esc='macro_escape_char', cmt='comment_start',
               forbidden='forbidden_characters')
 TEST_ATOMS = ['a', '$', '\\(', '\\)', '\\[', '\\]', '[', ']', '(', ')', '!', '#', '%', '{', '}', '\\x']
-PROBES = ['$a$', '\\)a\\(', '\\]$$', ']a[', ')(', '!a!', '#c\n%d', '{$}']
+PROBES = ['$a$', '\\)a\\(', '\\]$$', ']a[', ')(', '!a!', '#c\n%d', '{$}', 'a$$b', '$$', '\\[\\]']
 
 
 def tla_val(field, v):
@@ -103,8 +103,16 @@ CHECK_DEADLOCK FALSE
 """
 
 
-def mc(thorough):
-    root = pstate.make(ctx='none')
+ROOTS = {
+    'default': dict(),
+    'math_dollar': dict(in_math=True, mdelim='$'),
+    'math_paren': dict(in_math=True, mdelim='\\('),
+    'math_nodelim_brackets': dict(in_math=True, mdelim='', groups=[('{', '}'), ('[', ']')]),
+}
+
+
+def mc(thorough, rootname='default'):
+    root = pstate.make(ctx='none', **ROOTS[rootname])
     return MC % dict(root=pstate.tla_record(root), changes=changes_tla(all_changes(thorough)),
                      probes='<< ' + ', '.join(tla_seq(p) for p in PROBES) + ' >>')
 
@@ -188,7 +196,7 @@ def test_strings(K):
 def check_state(rec, K):
     """Returns (verdict, detail): 'same' | 'drift' | violation clause."""
     from pylatexenc.latexnodes import ParsingState
-    ps = pstate.real_state(pstate.make(ctx='none'))
+    ps = pstate.real_state(pstate.make(ctx='none', **ROOTS[rec.get('root', 'default')]))
     chain = [ps]
     snaps = [dict(ps.get_fields())]
     for ch in rec['hist']:
@@ -204,7 +212,9 @@ def check_state(rec, K):
         b = token_stream(s, fresh)
         if a != b:
             return 'tokenizes-differently', dict(s=s, derived=a, fresh=b)
-    for s in test_strings(1) + PROBES + ['$a$ \\(b\\)', '\\[a\\]', '[a]{b}(c)', '!a! #x']:
+    parse_docs = (test_strings(1) + PROBES + ['$a$ \\(b\\)', '\\[a\\]', '[a]{b}(c)', '!a! #x']) if K >= 2 else \
+        ['$a$ \\(b\\)', '\\[a\\]', '[a]{b}(c)', 'a$$b', '!a! #x']
+    for s in parse_docs:
         a = parse_obs(s, ps)
         b = parse_obs(s, fresh)
         if a != b:
@@ -233,6 +243,7 @@ class ChainConsumer(Consumer):
             self.nontrivial += 1
         self.sample(dict(chain=[{k: repr(v) for k, v in c.items()} for c in case['chain']],
                          fields=rec['fields']), every=1499)
+        rec['root'] = self.payload.get('root', 'default')
         st, val = guarded(check_state, rec, self.payload['K'], cpu_seconds=60)
         if st != 'ok':
             self.violation('outcome', dict(hist=rec['hist']), detail=dict(status=st, exc=repr(val)),
@@ -245,7 +256,7 @@ class ChainConsumer(Consumer):
             self.add_drift(dict(hist=rec['hist']), detail)
         elif verdict != 'same':
             keys = sorted(set(k for ch in rec['hist'] for k in ch))
-            self.violation(verdict, dict(hist=rec['hist'], fields=rec['fields'], probes=rec['probes']), detail=detail,
+            self.violation(verdict, dict(hist=rec['hist'], fields=rec['fields'], probes=rec['probes'], root=rec['root']), detail=detail,
                            sig=dict(clause=verdict))
 
 
@@ -263,11 +274,14 @@ def run(ctx):
     ctx.add_tlc(rc, 'control: VSub=as_implemented')
     ctx.control('stale expected-closing-delimiter table violates Cached', rc.violated in ('Cached', 'BehavesLikeFresh'),
                 str(rc.violated))
-    plans = [(2, K, '', 'all chains <= 2')]
+    plans = [('default', 2, K, '', 'all chains <= 2 from the default root')]
+    for rn in ('math_dollar', 'math_paren', 'math_nodelim_brackets'):
+        plans.append((rn, 2, 1 if quick else 2, '', 'all chains <= 2 from root %s' % rn))
     if not quick:
-        plans.append((3, 2, 'VIEW ViewLast', 'chains <= 3, one shortest chain per (state, last change)'))
-    for depth, kk, view, label in plans:
-        job = dict(payload=dict(K=kk), main='MC_PState', mc=text,
+        plans.append(('default', 3, 2, 'VIEW ViewLast', 'chains <= 3, one shortest chain per (state, last change)'))
+        plans.append(('math_dollar', 3, 1, 'VIEW ViewLast', 'chains <= 3 from root math_dollar, one per (state, last change)'))
+    for rootname, depth, kk, view, label in plans:
+        job = dict(payload=dict(K=kk, root=rootname), main='MC_PState', mc=mc(not quick, rootname),
                    cfg=CFG % dict(vsub='intended', depth=depth, emit='INVARIANT Emit', view=view),
                    tlc_kw=dict(timeout=3000, workers=1, xmx='6g'))
         m = common.run_dispatch(ctx, ('harness.c17', 'ChainConsumer'), job, what='PState intended, ' + label, batch=40)
@@ -280,7 +294,7 @@ def run(ctx):
 
 def replay(case):
     c = case['case']
-    rec = dict(hist=c['hist'], fields=c.get('fields'), probes=c.get('probes', []))
+    rec = dict(hist=c['hist'], fields=c.get('fields'), probes=c.get('probes', []), root=c.get('root', 'default'))
     verdict, detail = check_state(rec, 2)
     print('chain', [py_change(ch) for ch in c['hist']])
     print(verdict, detail)
